@@ -9,7 +9,7 @@
    local_iter r = toLocalIterator() = concat (glom r),  indices r = the indices handed to tasks,
    slice xs a b = xs[a:b],  slice_start len n i = floor(i*len/n). *)
 From Coq Require Import String.
-From Coq Require Import ZArith NArith List Bool PrimFloat.
+From Coq Require Import ZArith NArith List Bool PrimFloat Permutation.
 Require Import PV.Base.Val PV.Base.PyArith PV.Gen.Parallelize PV.Gen.Layout PV.Model.Layout PV.Proofs.Layout.
 Import ListNotations.
 Open Scope Z_scope.
@@ -38,10 +38,7 @@ Theorem slice_boundaries : forall len n, 0 <= len -> 0 < n ->
   slice_start len n 0 = 0 /\ slice_start len n n = len /\
   (forall i j, i <= j -> slice_start len n i <= slice_start len n j) /\
   (forall i, 0 <= i <= n -> 0 <= slice_start len n i <= len).
-Proof.
-  exact (fun len n Hl Hn => conj (start_0 len n Hn) (conj (start_n len n Hn)
-          (conj (start_mono len n Hl Hn) (start_bounds len n Hl Hn)))).
-Qed.
+Proof. exact slice_boundaries_lemma. Qed.
 
 Theorem parallelize_one_slice : forall (xs : list val) n, n <= 1 -> parallelize xs (Some n) = [(0, xs)].
 Proof. exact parallelize_single. Qed.
@@ -91,6 +88,11 @@ Theorem partitionBy_colocated : forall (f : val -> Z) (r : rdd) (n : Z) ps, 0 < 
     (forall j p, nth_error ps j = Some p -> In kv p -> Z.of_nat j = f k mod n).
 Proof. exact partitionBy_place_lemma. Qed.
 
+(* no pair is lost or duplicated *)
+Theorem partitionBy_permutation : forall (f : val -> Z) (r : rdd) (n : Z) ps, 0 < n -> pairs_ok (local_iter r) ->
+  partitionBy f r n = Ok (mk_rdd ps) -> Permutation (concat ps) (local_iter r).
+Proof. exact partitionBy_perm_lemma. Qed.
+
 (* ---- the default partitioner portable_hash(k) & 0xffffffff reads nothing that depends on the
    interpreter's hash seed: for keys built from None, bools, ints, floats, strings and nested
    tuples/lists, the result is the same whatever the runtime answers for hash() of other objects
@@ -133,6 +135,24 @@ Proof. exact uid_injective_lemma. Qed.
 
 Theorem uid_distinct : forall (r : rdd), wf r -> NoDup (map uid_of (local_iter (zip_with_unique_id r))).
 Proof. exact uid_distinct_lemma. Qed.
+
+(* ---- error branches of the model (targets <= 0, zero partitions, elements that are not pairs) *)
+Theorem coalesce_zero : forall (r : rdd) m, Z.min m (num_partitions r) = 0 -> coalesce r m = Err "ZeroDivisionError".
+Proof. exact coalesce_zero_lemma. Qed.
+Theorem coalesce_negative : forall (r : rdd) m, m < 0 -> r <> [] -> coalesce r m = Err "IndexError".
+Proof. exact coalesce_negative_lemma. Qed.
+Theorem partitionBy_empty : forall f (r : rdd) n, local_iter r = [] ->
+  partitionBy f r n = Ok (mk_rdd (repeat [] (Z.to_nat n))).
+Proof. exact partitionBy_empty_lemma. Qed.
+Theorem partitionBy_zero : forall f (r : rdd) kv kvs k,
+  local_iter r = kv :: kvs -> key_of kv = Ok k -> partitionBy f r 0 = Err "ZeroDivisionError".
+Proof. exact partitionBy_zero_lemma. Qed.
+Theorem partitionBy_negative : forall f (r : rdd) n kv kvs k, n < 0 ->
+  local_iter r = kv :: kvs -> key_of kv = Ok k -> partitionBy f r n = Err "IndexError".
+Proof. exact partitionBy_negative_lemma. Qed.
+Theorem partitionBy_not_a_pair : forall f (r : rdd) n kv kvs e,
+  local_iter r = kv :: kvs -> key_of kv = Err e -> partitionBy f r n = Err e.
+Proof. exact partitionBy_not_a_pair_lemma. Qed.
 
 (* ---- the range(N) shortcuts used by the correspondence run are the list model *)
 Theorem range_probe_correct : forall N n i, 1 < n -> 0 <= N -> 0 <= i < n ->
@@ -180,7 +200,9 @@ Proof. vm_compute. reflexivity. Qed.
 
 Example portable_hash_doctest :
   portable_hash no_runtime_hash VNone = 0 /\
-  rdd_hash no_runtime_hash (VTup [VNone; VInt 1]) = 219750521 /\
+  portable_hash no_runtime_hash (VInt (-1)) = -2 /\
+  portable_hash no_runtime_hash (VInt (2 ^ 61)) = 1 /\
+  portable_hash no_runtime_hash (VFloat 1.5%float) = 2 ^ 60 + 1 /\
   portableb (VTup [VNone; VInt 1; VStr [97]%N; VTup [VFloat 1.5%float]]) = true /\
   portable_hash (fun _ => 1) (VErr "bytes") <> portable_hash (fun _ => 2) (VErr "bytes").
 Proof. vm_compute. repeat split. discriminate. Qed.
